@@ -12,12 +12,8 @@ class AbstractOnlineInterpreter(AbstractInterpreter):
         return
 
     def reset(self):
-        # reset sub-specs
-        for key in self.ast.var_subspec_dict:
-            node = self.ast.var_subspec_dict[key]
-            self.resetVisitor.visit(node, self.online_operator_dict)
-
-        # reset spec
+        # reset spec: ast.specs holds every assertion, the sub-specifications included
+        # (var_subspec_dict still refers to the nodes from before pastify())
         self.resetVisitor.visitAst(self.ast, self.online_operator_dict)
         return
 
